@@ -50,7 +50,7 @@ def gen_cases(tier, seed):
             'flushkind': fk, 'flushvec': flushvec_of(fk, crng),
             'policy': rng.choice(('random', 'random', 'lazy', 'eager', 'pct')), 'p': rng.choice((0.1, 0.3, 0.6)),
             'events': gen_events(rng, limit, style), 'sig_schedule': True,
-            'fresh': (i % 4 == 0) or tier == 'thorough', 'sample': i in (0, 6),
+            'fresh': (i % 4 == 0) or tier == 'thorough', 'sample': i in (0, 6), 'small_files': i % 3 == 1,
         })
     return cases
 
